@@ -124,6 +124,9 @@ func vrCandidates(valid []string, junk []string) []string {
 				r := append([]string{}, toks...)
 				r[i] = strings.ToLower(toks[i])
 				add(strings.Join(r, "/"))
+				r = append([]string{}, toks...)
+				r[i] = toks[i][:k+1] + strings.ToLower(toks[i][k+1:]) // the value alone in lower case (E:poc)
+				add(strings.Join(r, "/"))
 			}
 		}
 		for _, j := range junk {
@@ -136,6 +139,10 @@ func vrCandidates(valid []string, junk []string) []string {
 		add("/" + v)
 		add(v + "\n")
 		add(strings.ToLower(v))
+		add("(" + v + ")")
+		add("(" + v)
+		add(v + ")")
+		add("\t" + v)
 	}
 	add("")
 	add("/")
@@ -230,6 +237,8 @@ func TestVerifDecodeSearch(t *testing.T) {
 		"CVSS:3.1/AV:N/AC:L/PR:N/UI:N/S:U/C:H/I:H/A:H/E:F/RL:O/RC:C/CR:H/IR:M/AR:L/MAV:N/MAC:L/MPR:N/MUI:N/MS:U/MC:H/MI:H/MA:H",
 		"CVSS:3.0/AV:N/AC:L/PR:N/UI:N/S:U/C:H/I:H/A:H/MS:C/MI:N/CR:X/MAV:X",
 		"CVSS:3.1/MPR:L/AV:N/AC:L/PR:N/UI:N/S:C/C:H/I:H/A:H/MA:X",
+		"CVSS:3.1/AV:N/AC:L/PR:N/UI:N/S:U/C:H/I:H/A:H/CR:H/IR:M/AR:L/MAV:N/MAC:L/MPR:N/MUI:N/MS:X/MC:H/MI:H/MA:H/E:F/RL:O/RC:C",
+		"CVSS:3.0/CR:L/IR:L/AR:L/MAV:P/MAC:H/MPR:H/MUI:R/MS:C/MC:L/MI:L/MA:L/E:U/RL:T/RC:R/AV:N/AC:L/PR:N/UI:N/S:U/C:H/I:H/A:H",
 	}
 	junk := []string{"E:H", "RL:X", "MAV:N", "CR:X", "MI:N", "XX:N", "AVN", "AV:", ":N", "AV:N:X", "", "AV:\xff", "Au:N", "CDP:H", "av:n", "AV:N ", "CVSS:3.1", "CVSS:2.0"}
 	cands := vrCandidates(valid, junk)
